@@ -379,6 +379,8 @@ def machine(acc: Acc, tier, shard, nshards):
             v = value_for(ch, t, sl[k], alt)
             if v is None:
                 return
+            if isinstance(v, list) and ch.chance(1, 3):
+                v = tuple(v)   # a tuple is as good as a list for a multi-value keyword set through the API
             spelled = ch.choice([k, k.upper(), k.capitalize()])
             if not isinstance(o, C):
                 spelled = k  # create() returns a plain DefaultOrderedDict: keys are given in lower case there (documented convention)
